@@ -147,7 +147,7 @@ class C37(Property):
         "coefficient array (hand-modelled, tied by correspondence)",
         "IEEE: complex64 evaluation of the stencil (tolerance 1e-5 relative); the decimal table equals the rational order conditions only to 1e-15",
     ]
-    assumptions = ["accuracy <= 18 (table); larger accuracies are computed with sympy and are not modelled"]
+    assumptions = ["accuracy <= 18 (table); larger accuracies are computed with sympy, which is not installed in this environment (ModuleNotFoundError): neither modelled nor exercised"]
     rule = ("correspondence: all (derivative, accuracy) in [-1,2]x[-3,21]; random integer-valued complex arrays 3-9 x 3-9, accuracies 2-8, "
             "dyadic samplings (equal and unequal); conformance: plane waves on 12-30 point grids with equal/unequal pixels, accuracies 2-18; "
             "vacuum probes on square and non-square pixels; lazy vs eager with two atoms")
